@@ -134,4 +134,76 @@ theorem fs_legacy_name_counterexample :
     Fs.altNameFor 16 (toDbKey 16 (toSessionKey [] 16 [80, 97, 46, 98]) none) =
       Fs.nameFor (toDbKey 32 (toSessionKey (sidBytes [97]) 32 [98]) none) := by decide
 
+/-! ### Postgres listing: nothing outside the (type, session, prefix) it was opened with is listed -/
+
+theorem pg_dumpRest_confined (c : DbCtx) (base : Bytes) (rows : List (Bytes × Bytes)) :
+    ∀ p ∈ Pg.dumpRest c base rows, ∃ kk, (kk, p.2) ∈ rows ∧ base.isPrefixOf kk = true ∧
+      Fs.decodeKey none c kk = .ok p.1 := by
+  induction rows with
+  | nil => intro p hp; simp [Pg.dumpRest] at hp
+  | cons r rest ih =>
+    obtain ⟨kk, vv⟩ := r
+    intro p hp
+    unfold Pg.dumpRest at hp
+    by_cases hb : base.isPrefixOf kk = true
+    · rw [if_pos hb] at hp
+      cases hd : Fs.decodeKey none c kk with
+      | ok k =>
+        rw [hd] at hp
+        simp only [List.mem_cons] at hp
+        rcases hp with rfl | hp
+        · exact ⟨kk, by simp, hb, hd⟩
+        · obtain ⟨kk', h1, h2, h3⟩ := ih p hp
+          exact ⟨kk', by simp [h1], h2, h3⟩
+      | err e => rw [hd] at hp; simp at hp
+      | panic e => rw [hd] at hp; simp at hp
+    · rw [if_neg hb] at hp; simp at hp
+
+/-- every row the Postgres listing hands out is a row of the table whose storage key starts with the storage key
+of (current type, current session, requested prefix), and the key shown is that row's key decoded in the current session -/
+theorem pg_dump_confined (c : DbCtx) (st : Store) (key : Bytes) (l : List (Bytes × Bytes))
+    (h : Pg.dump c st key = .ok l) :
+    ∀ p ∈ l, ∃ kk, (kk, p.2) ∈ Pg.rowsFrom st (toDbKey c.pfx (toSessionKey c.sid c.pfx key) none) ∧
+      (toDbKey c.pfx (toSessionKey c.sid c.pfx key) none).isPrefixOf kk = true ∧
+      Fs.decodeKey none c kk = .ok p.1 := by
+  unfold Pg.dump toKey at h
+  by_cases hu : c.pfx = Facts.dtUnknown
+  · simp [hu] at h
+  · simp only [hu, if_false] at h
+    generalize hrows : Pg.rowsFrom st (toDbKey c.pfx (toSessionKey c.sid c.pfx key) none) = rows at h ⊢
+    cases rows with
+    | nil => simp at h
+    | cons r rest =>
+      obtain ⟨kk, vv⟩ := r
+      simp only at h
+      by_cases hb : (toDbKey c.pfx (toSessionKey c.sid c.pfx key) none).isPrefixOf kk = true
+      · rw [if_pos hb] at h
+        cases hd : Fs.decodeKey none c kk with
+        | ok k =>
+          rw [hd] at h
+          simp only [Res.ok.injEq] at h
+          subst h
+          intro p hp
+          simp only [List.mem_cons] at hp
+          rcases hp with rfl | hp
+          · exact ⟨kk, by simp, hb, hd⟩
+          · obtain ⟨kk', h1, h2, h3⟩ := pg_dumpRest_confined c _ rest p hp
+            exact ⟨kk', by simp [h1], h2, h3⟩
+        | err e => rw [hd] at h; simp at h
+        | panic e => rw [hd] at h; simp at h
+      · rw [if_neg hb] at h; simp at h
+
+/-- a row with that prefix carries the type byte of the listing: records of other data types are never listed -/
+theorem pg_dump_same_type (typ : Nat) (b kk : Bytes) (h : (toDbKey typ b none).isPrefixOf kk = true) :
+    kk.head? = some (UInt8.ofNat typ) := by
+  cases kk with
+  | nil => simp [toDbKey] at h
+  | cons x xs =>
+    simp [toDbKey] at h
+    simp [h.1]
+
+/-- before the fix the listing ran on into the rows of higher data types: the USERDATA-less type 1 listing with the empty
+session over a table that holds session `a`'s STATE record (type 16) now lists nothing -/
+example : Pg.dump { pfx := 1 } [([16, 97, 46, 99], [115])] [102] = .err "notfound" := by decide
+
 end Vise.C11
